@@ -11,6 +11,8 @@ configuration attributes must read the same after the call as before.
 """
 from __future__ import annotations
 
+import copy
+
 import numpy as np
 
 from pv import core
@@ -52,7 +54,7 @@ def _scene(rng, fwhm, shape, faint_companions=False):
         data += CircularGaussianPRF(flux=f, x_0=x, y_0=y, fwhm=fwhm)(xx, yy)
     for (x, y), f in zip(pos, flux):
         data += CircularGaussianPRF(flux=f, x_0=x, y_0=y, fwhm=fwhm)(xx, yy)
-    bkg = float(rng.choice([0.0, 0.0, 5.0]))
+    bkg = float(rng.choice([0.0, 5.0, 7.0]))
     data += bkg + rng.normal(0, 1.0, shape)
     return dict(data=data, pos=np.array(pos), flux=flux, bkg=bkg)
 
@@ -67,12 +69,12 @@ def gen_factory(rng, variant):
     min_sep = float(np.round(rng.uniform(3.0, 8.0), 1))
     use_finder = variant in ('finder', 'iterative') or (variant == 'grouped' and rng.random() < 0.3)
     thr = float(rng.uniform(6, 15))
-    use_lbkg = rng.random() < 0.4
+    use_lbkg = rng.random() < 0.5
     ap_r = None if (variant not in ('finder', 'iterative') and rng.random() < 0.15) else float(np.round(rng.uniform(2.5, 5), 1))
     xyb = [None, None, 2.0, (1.5, None), (None, 3.0)][int(rng.integers(0, 5))]
     fk = int(rng.integers(0, 5))       # fitter kind; 0,1 = default argument (shared singleton)
     mode = 'new' if (not use_grouper or rng.random() < 0.5) else 'all'
-    maxiters = int(rng.integers(2, 4)) if rng.random() < 0.85 else 1
+    maxiters = int(rng.integers(2, 4)) if rng.random() < 0.65 else 1
     sub_shape = [None, (7, 7), 9][int(rng.integers(0, 3))]
 
     def make():
@@ -201,10 +203,9 @@ def _call(obj, args):
     return obj(d, mask=m, error=e, init_params=ip)
 
 
-def _post(obj, args, q, iterative):
-    """Post-call observables, each as its own request."""
+def _attrs(obj, iterative):
+    """Post-call public attributes, each as its own request (no image request is made here)."""
     out = {}
-    shape = args['data'].shape
     if not iterative:
         for a in ('fit_info', 'fit_params', 'init_params', 'finder_results', 'results', 'data_unit'):
             out[a] = O.request(lambda a=a: getattr(obj, a))
@@ -213,16 +214,37 @@ def _post(obj, args, q, iterative):
             return [dict(results=p.results, fit_info=p.fit_info, init_params=p.init_params,
                          finder_results=p.finder_results, fit_params=p.fit_params) for p in obj.fit_results]
         out['fit_results'] = O.request(frs)
-    out['make_model_image'] = O.request(lambda: obj.make_model_image(shape, psf_shape=q['psf_shape'],
-                                                                     include_localbkg=q['lbkg']))
-    d = args['data'].copy()
-    if args['unit'] is not None:
-        d = d * args['unit']
-    out['make_residual_image'] = O.request(lambda: obj.make_residual_image(d, psf_shape=q['psf_shape'],
-                                                                           include_localbkg=q['lbkg']))
     for k, v in O.repr_fields(repr(obj)).items():
         out['repr.' + k] = O.Out(True, value=v)
     return out
+
+
+PSF_SHAPES = [None, None, (7, 7), 5, (9, 5), 11]
+
+
+def _gen_image_requests(rng, shape):
+    """2-5 make_model_image / make_residual_image requests with varying arguments; include_localbkg
+    alternates often so that True->False and False->True orders both occur."""
+    reqs = []
+    lb = bool(rng.random() < 0.5)
+    for j in range(int(rng.integers(2, 6))):
+        kind = 'make_model_image' if rng.random() < 0.55 else 'make_residual_image'
+        shp = list(shape)
+        if kind == 'make_model_image' and rng.random() < 0.3:
+            shp = [int(shape[0] + rng.integers(-6, 7)), int(shape[1] + rng.integers(-6, 7))]
+        reqs.append(dict(kind=kind, shape=shp, psf_shape=PSF_SHAPES[int(rng.integers(0, len(PSF_SHAPES)))], lbkg=lb))
+        if rng.random() < 0.65:
+            lb = not lb
+    return reqs
+
+
+def _image(obj, args, rq):
+    if rq['kind'] == 'make_model_image':
+        return obj.make_model_image(tuple(rq['shape']), psf_shape=rq['psf_shape'], include_localbkg=rq['lbkg'])
+    d = args['data'].copy()
+    if args['unit'] is not None:
+        d = d * args['unit']
+    return obj.make_residual_image(d, psf_shape=rq['psf_shape'], include_localbkg=rq['lbkg'])
 
 
 def _grouping(obj, iterative):
@@ -269,13 +291,15 @@ def run(case, variant):
               for _ in range(nscene)]
     ncalls = int(rng.integers(2, 6)) if not iterative else int(rng.integers(2, 4))
     calls = [gen_call(rng, scenes, use_finder, allow_units=not use_finder) for _ in range(ncalls)]
-    case.params = dict(desc, calls=[c for c, _ in calls], nstars=[len(s['pos']) for s in scenes])
-    case.digest = core.arr_digest(*[s['data'] for s in scenes]) + core.digest(case.params)
+    calllog = []
+    case.params = dict(desc, calls=calllog, nstars=[len(s['pos']) for s in scenes])
+    case.digest = core.arr_digest(*[s['data'] for s in scenes]) + core.digest([desc, [c for c, _ in calls]])
     case.nontrivial = ncalls >= 2
 
     live = make()
     prior_gid = False
     for k, (cdesc, args) in enumerate(calls):
+        calllog.append(dict(cdesc))
         cur_gid = 'group_id' in cdesc['cols']
         inner = live._psfphot if iterative else live
         # known-mechanism key only (never a verdict): has the configured grouper already been dropped?
@@ -309,7 +333,6 @@ def run(case, variant):
                 ok, _, why = O.deep_same(v0, v1)
             case.check(ok, 'psf_config_unchanged_by_call', dict(mech, attr=name), why=why)
 
-        q = {'psf_shape': [None, None, (7, 7), 5][int(rng.integers(0, 4))], 'lbkg': bool(rng.random() < 0.4)}
         consequential = False
         if lost and not cur_gid:
             # the configured grouper is gone (reported by psf_config_unchanged_by_call when it happened):
@@ -325,9 +348,39 @@ def run(case, variant):
             case.note('psf_calls_not_compared_further_after_lost_grouper')
         else:
             O.compare(case, o_live, o_fresh, 'psf_call_vs_fresh', mech)
-            p_live = _post(live, args, q, iterative)
-            p_fresh = _post(fresh, args, q, iterative)
-            for name in p_live:
-                O.compare(case, p_live[name], p_fresh[name], 'psf_post_vs_fresh', dict(mech, attr=name),
+            # public attributes right after the call; `fresh` never receives an image request
+            a_fresh = _attrs(fresh, iterative)
+            a_live = _attrs(live, iterative)
+            for name in a_live:
+                O.compare(case, a_live[name], a_fresh[name], 'psf_post_vs_fresh', dict(mech, attr=name),
                           devname='psf_post:' + name)
+            # a sequence of image requests with varying arguments on the live object; each one is judged
+            # against an object that made the same fit call and ONLY that request (a deep copy of the
+            # untouched fresh object; one request per call also against a really new object)
+            reqs = _gen_image_requests(rng, args['data'].shape)
+            k_new = int(rng.integers(0, len(reqs))) if rng.random() < 0.5 else -1
+            seen_true = seen_false = False
+            for j, rq in enumerate(reqs):
+                mi = dict(mech, attr=rq['kind'], include_localbkg=bool(rq['lbkg']), request='first' if j == 0 else 'later',
+                          prior_request_with_localbkg=bool(seen_true), prior_request_without_localbkg=bool(seen_false))
+                o_l = O.request(lambda: _image(live, args, rq))
+                twin = copy.deepcopy(fresh)
+                o_t = O.request(lambda: _image(twin, args, rq))
+                O.compare(case, o_l, o_t, 'psf_image_vs_fresh', mi, devname='psf_image:' + rq['kind'])
+                if j == k_new:
+                    new = make()
+                    O.request(lambda: _call(new, args))
+                    o_n = O.request(lambda: _image(new, args, rq))
+                    O.compare(case, o_l, o_n, 'psf_image_vs_new_object', mi, devname='psf_image_new:' + rq['kind'])
+                case.note('psf_image_requests')
+                if j > 0 and (seen_true if not rq['lbkg'] else seen_false):
+                    case.note('psf_image_requests_after_opposite_localbkg')
+                seen_true |= bool(rq['lbkg'])
+                seen_false |= not rq['lbkg']
+            calllog[-1]['images'] = [[r['kind'][5:-6], r['psf_shape'], r['lbkg'], r['shape'] != list(args['data'].shape)]
+                                     for r in reqs]
+            # the image requests must not have changed what the object reports
+            a_live2 = _attrs(live, iterative)
+            for name in a_live2:
+                O.compare(case, a_live2[name], a_fresh[name], 'psf_post_after_images_vs_fresh', dict(mech, attr=name))
         prior_gid = prior_gid or cur_gid
